@@ -13,6 +13,7 @@
 # limitations under the License.
 
 import threading
+import traceback
 import qcore.inspection as core_inspection
 
 from . import debug
@@ -122,7 +123,14 @@ class BatchBase(futures.FutureBase):
         error = self.error()
         cancelled = error is not None
         if cancelled:
-            self._cancel()
+            # _cancel() is a hook of the subclass.  Like an on_computed callback
+            # (FutureBase._computed) it must neither keep the items from being
+            # completed nor make cancel() / flush() raise: "Cancel must never raise".
+            try:
+                self._cancel()
+            except Exception as e:
+                print("exception ignored in asynq batch _cancel() hook: %r" % type(e))
+                traceback.print_exc()
         for item in self.items:
             if not item.is_computed():
                 # We must ensure all batch items are computed
